@@ -327,6 +327,11 @@ pub mod verif_hooks {
     ) -> Option<(u16, ShardCount, u8)> {
         verif_sharding::shard_info_new(shard, nr_shards, msb_ignore)
     }
+    pub fn shard_info_from_options(
+        options: &std::collections::HashMap<String, Vec<String>>,
+    ) -> Option<(u16, ShardCount, u8)> {
+        verif_sharding::shard_info_from_options(options)
+    }
 
     pub fn ring_new<ElemT>(it: impl Iterator<Item = (Token, ElemT)>) -> TokenRing<ElemT> {
         crate::routing::locator::verif_token_ring::ring_new(it)
